@@ -1,4 +1,5 @@
 import DimodModel.ExprReads
+import DimodModel.ViewHeap
 import DimodModel.Wire
 open Wire
 
@@ -12,7 +13,11 @@ open Wire
         quad    u:v:b,... in `iter_quadratic` order, model indices | -            off   offset
         op      R:v (parent remove_variable) | F:v:a (parent fix_variable) | V:v (the view's own remove_variable)
         x       the sample, one value per model index after the step
-      answer  vars=… lin=<label reading of every model index> quad=<non-zero label readings g<=h> e=<loop> p=<label polynomial> -/
+      answer  vars=… lin=<label reading of every model index> quad=<non-zero label readings g<=h> e=<loop> p=<label polynomial>
+
+    C02, round 8 — the object graph of `.spin` / `.binary`:
+      viewheap <S|B> <ops>       ops joined by ';': b<o> (`obj.binary`), s<o> (`obj.spin`), c<S|B><o> (`obj.change_vartype(vt, inplace=True)`)
+      answer  ret=<object id every call returned> vts=<`.vartype` of every object> depth=<VartypeView layers of every object's data> -/
 
 def splitTok (s : String) (sep : String) : List String := if s = "-" then [] else s.splitOn sep
 def parseRats (s : String) : Option (List Rat) := (splitTok s ",").mapM parseRat?
@@ -38,6 +43,19 @@ def step (line : String) : String :=
       let qs := if q.isEmpty then "-" else String.intercalate "," (q.map fun t => s!"{t.1}:{t.2.1}:{showRat t.2.2}")
       let vs := if e'.vars.isEmpty then "-" else String.intercalate "," (e'.vars.map toString)
       pure s!"vars={vs} lin={showRats ((List.range n').map e'.linear)} quad={qs} e={showRat ((ExprReads.toEn e').energyCpp (xOf x))} p={showRat (ExprReads.labelPoly e' (xOf x))}"
+  | ["viewheap", vt0, ops] => do
+      let vt? (c : Char) : Option ViewHeap.VT := if c = 'S' then some .spin else if c = 'B' then some .binary else none
+      let showVt (v : ViewHeap.VT) : String := match v with | .spin => "S" | .binary => "B"
+      let ops ← (splitTok ops ";").mapM (fun (t : String) => match t.toList with
+        | 'b' :: rest => (String.ofList rest).toNat?.map ViewHeap.Heap.Op.binary
+        | 's' :: rest => (String.ofList rest).toNat?.map ViewHeap.Heap.Op.spin
+        | 'c' :: v :: rest => do pure (ViewHeap.Heap.Op.changeVartype (← (String.ofList rest).toNat?) (← vt? v))
+        | _ => none)
+      let h0 := ViewHeap.init (← vt? (vt0.toList.headD 'x'))
+      let (h, rets) := ops.foldl (fun (acc : ViewHeap.Heap × List Nat) op => ((acc.1.step op).1, acc.2 ++ [(acc.1.step op).2])) (h0, [])
+      let ids := List.range h.objs.length
+      let j (l : List String) : String := if l.isEmpty then "-" else String.intercalate "," l
+      pure s!"ret={j (rets.map toString)} vts={j (ids.map fun o => showVt (h.objVt o))} depth={j (ids.map fun o => toString (h.objDepth o))}"
   | _ => none
   r.getD "bad-op"
 
